@@ -43,6 +43,13 @@ def legacy_cases():
             inner = struct.pack(">qi", 0, inner_len) + b"\x00" * 3
             cs.append(("legacy v%d gzip wrapper, inner message length %d" % (magic, inner_len), magic,
                        legacy_msg(magic, b"", gzip.compress(inner), keylen=-1, attrs=1, offset=5)))
+        # decompression itself fails: the batch must go on holding the bytes its buffer view points into
+        good = gzip.compress(legacy_msg(magic, b"k", b"v"))
+        cs.append(("hold: legacy v%d gzip wrapper whose payload does not inflate" % magic, magic,
+                   legacy_msg(magic, b"", good[:12] + bytes([good[12] ^ 0xff]) + good[13:-8] + b"\x00" * 8, keylen=-1, attrs=1)))
+        cs.append(("hold: legacy v%d wrapper with unknown codec bits 5" % magic, magic,
+                   legacy_msg(magic, b"", good, keylen=-1, attrs=5)))
+    cs.append(("hold: legacy v0 wrapper flagged LZ4", 0, legacy_msg(0, b"", b"\x04\x22\x4d\x18" + b"\x00" * 12, keylen=-1, attrs=3)))
     return cs
 
 
@@ -131,15 +138,29 @@ def exact_block(data):
     return array.array("b", [x - 256 if x > 127 else x for x in data])
 
 
-def run_case(kind, magic, data):
+def run_case(kind, magic, data, name=""):
     """decode fully; -> None or a problem string (internal errors only; clean exceptions are fine)"""
     from aiokafka.errors import CorruptRecordException
     try:
         if kind == "legacy":
             from aiokafka.record._crecords.legacy_records import LegacyRecordBatch
-            b = LegacyRecordBatch(bytes(bytearray(data)), magic)
-            for _ in b:
-                pass
+            src = bytes(bytearray(data))
+            before = sys.getrefcount(src)
+            b = LegacyRecordBatch(src, magic)
+            held = sys.getrefcount(src)
+            try:
+                for _ in b:
+                    pass
+            except (SystemError, MemoryError):
+                raise
+            except Exception:
+                # the batch object is still alive: validate_crc() or another pass over it reads through its buffer view
+                # ("hold:" cases fail inside the decompression step, i.e. before the view is re-pointed at the inflated bytes)
+                if name.startswith("hold:") and held > before and sys.getrefcount(src) < held:
+                    return ("after the failed iteration the batch no longer holds the bytes its buffer view points into "
+                            "(references %d -> %d): validate_crc() would read memory it does not own" % (held, sys.getrefcount(src)))
+                del src
+                b.validate_crc()             # under valgrind: an invalid read if the bytes were given back
         elif kind == "default":
             from aiokafka.record._crecords.default_records import DefaultRecordBatch
             b = DefaultRecordBatch(exact_block(data))
@@ -172,7 +193,7 @@ def child(which, only=None):
         sys.stderr.flush()
         signal.alarm(10)
         try:
-            r = run_case(which, magic, data)
+            r = run_case(which, magic, data, name)
         finally:
             signal.alarm(0)
         if r:
